@@ -131,8 +131,15 @@ def gen_base(rnd, g, prices, T, kind, name, node_names):
         ni = name + '_i1'
         inner = [gen.gen_transport(rnd, g, prices, T, name + '_tr', ni, node)]
         inner[0]['args'].pop('costs_time_series', None)
-        ik = rnd.choice(['simple', 'simple', 'storage', 'contract'])
-        if ik == 'simple':
+        ik = rnd.choice(['simple', 'simple', 'storage', 'contract', 'simple+plant'])
+        if ik == 'simple+plant':
+            # a plain LP asset at the internal node next to an asset with boolean variables: the mapping of the wrapped
+            # problem then has a bool column with empty entries for the LP asset
+            inner.append(gen.gen_simple_contract(rnd, g, prices, T, name + '_c', ni))
+            pl = gen.gen_plant(rnd, g, prices, T, name + '_p', [ni], chp=False, allow_mip=True)
+            pl['args'].setdefault('min_cap', 0.5)
+            inner.append(pl)
+        elif ik == 'simple':
             inner.append(gen.gen_simple_contract(rnd, g, prices, T, name + '_c', ni))
         elif ik == 'contract':
             inner.append(gen.gen_contract(rnd, g, prices, T, name + '_c', ni))
